@@ -13,6 +13,7 @@ mod c02;
 mod c03;
 mod c05;
 mod c09;
+mod c15;
 mod gen;
 mod sexp;
 mod c16;
@@ -206,6 +207,8 @@ pub fn eval(out: &mut Out, req: &str) -> String {
         c02::eval(out, op, &args)
     } else if op.starts_with("sub.") {
         c05::eval(out, op, &args)
+    } else if op.starts_with("hash.") || op.starts_with("lbl.") {
+        c15::eval(out, op, &args)
     } else if op.starts_with("pr.") {
         c16::eval(out, op, &args)
     } else {
@@ -263,6 +266,7 @@ fn main() {
         "C03" => c03::run(&mut ctx),
         "C05" => c05::run(&mut ctx),
         "C09" => c09::run(&mut ctx),
+        "C15" => c15::run(&mut ctx),
         "C16" => c16::run(&mut ctx),
         _ => {
             eprintln!("unknown property {prop}");
